@@ -48,11 +48,14 @@ Definition w_nested_loops : list stmt :=
 Lemma w_nested_loops_l : violates w_nested_loops [(O, 0%Z)].
 Proof. witness 10. Qed.
 
-(* for (i..2) { emit } for (i..2) { emit } : the second loop never runs *)
+(* for (i..2) { emit } for (i..2) { emit } : before fix 4fa4431 the second loop never ran; the body is
+   now inside the proved fragment (corpus/c14.json keeps it as a regression input) *)
 Definition w_for_var_reuse : list stmt :=
   [forloop 100 2 [SEmit 0 (EVar 100)]; forloop 100 2 [SEmit 1 (EVar 100)]].
-Lemma w_for_var_reuse_l : violates w_for_var_reuse [(O, 0%Z)].
-Proof. witness 10. Qed.
+Example w_for_var_reuse_fixed :
+  wf_body [O; 1; 2] w_for_var_reuse = true /\
+  outputs_of (snd (mrun aw0 10 10 (spawn w_for_var_reuse [(O, 0%Z)]))) = [(0, 0%Z); (0, 1%Z); (1, 0%Z); (1, 1%Z)].
+Proof. vm_compute. split; reflexivity. Qed.
 
 (* the outputs, for the record *)
 Example w_yield_in_block_out :
@@ -75,6 +78,7 @@ Definition ex_fragment : list stmt :=
   [SEmit 0 v0; SYield;
    SWhile (lt0 (EVar 1)) [SAssign 1 (ESub (EVar 1) (EConst 1)); SIf (EEq (EVar 1) (EConst 1)) [SEmit 1 (EVar 1)] [SEmit 2 v0]];
    forloop 100 2 [SAwait 0 0 (EVar 100); SEmit 3 v0];
+   forloop 100 1 [SEmit 5 (EVar 100)];
    SWhile (lt0 (EVar 2)) [SAssign 2 (ESub (EVar 2) (EConst 1)); SEmit 4 (EVar 2); SYield];
    SYield; SReturn (EAdd v0 (EConst 7))].
 Example ex_fragment_wf : wf_body [O; 1%nat; 2%nat] ex_fragment = true.
